@@ -27,6 +27,11 @@ MODES = ["error", "warning", "silent", "bogus"]
 TR = len(FORMULAS)
 FORMULAS = FORMULAS + ["y ~ tr(x) + f"]
 NAMESPACES = {"A": "lambda v: v * 2 + 1", "B": "lambda v: v * v", "C": None}
+# formulas naming encoding OBJECTS of the caller's namespace (one Treatment() and one Sum() per history,
+# shared by all its builds): using an object for one design must not change what it does for the next
+ENC = list(range(len(FORMULAS), len(FORMULAS) + 4))
+FORMULAS = FORMULAS + ["y ~ C(g, enc) + x", "y ~ C(f, enc) + C(g, senc)", "y ~ 0 + C(h, enc)", "y ~ x + C(g, senc)"]
+OUTSIDE = [TR] + ENC
 
 
 def _pool(rng):
@@ -78,6 +83,13 @@ def gen(rng, tier):
             if rng.random() < 0.5:
                 ops.append(["common", len([o for o in ops if o[0] == "build"]) - 1, rng.randrange(4)])
         cases.append({"frames": _pool(rng), "ops": ops, "kind": "shared-env", "shared_env": True})
+    for i in range(200 if tier == "thorough" else 30):
+        ops = []
+        for _ in range(rng.randint(2, 4)):
+            ops.append(["build", rng.choice(ENC), rng.choice([0, 2, 3])])
+            if rng.random() < 0.4:
+                ops.append(["common", len([o for o in ops if o[0] == "build"]) - 1, rng.randrange(4)])
+        cases.append({"frames": _pool(rng), "ops": ops, "kind": "shared-encoder"})
     # a share of short histories is additionally compared with a brand-new interpreter per operation
     for i in range(60 if tier == "thorough" else 12):
         ops = [["build", rng.choice([7, 8, 1, 4, 6]), 0], ["build", rng.choice([7, 8, 1, 4, 6]), 3],
@@ -136,6 +148,8 @@ def _execute(c, fresh_each=False):
     dfs = [dm.to_pandas(f) for f in c["frames"]]
     copies = [d.copy(deep=True) for d in dfs]
     formulae.config["EVAL_UNSEEN_CATEGORIES"] = "error"
+    from formulae.categorical import Sum, Treatment
+    encoders = {"enc": Treatment(), "senc": Sum()}
     designs, outs, trained, views = [], [], [], []
     problems = []
     from formulae.environment import Environment
@@ -147,6 +161,8 @@ def _execute(c, fresh_each=False):
                     ns = None
                     if len(o) > 3 and NAMESPACES.get(o[3]):
                         ns = {"tr": eval(NAMESPACES[o[3]])}
+                    if o[1] in ENC:
+                        ns = dict(ns or {}, **encoders)
                     d = design_matrices(FORMULAS[o[1]], dfs[o[2]], env=shared, extra_namespace=ns)
                     designs.append(d)
                     trained.append([None if p is None else np.array(p.design_matrix, copy=True)
@@ -220,12 +236,12 @@ def compare(c, mo, obs):
     nb = 0
     for o in c["ops"]:
         if o[0] == "build":
-            if o[1] == TR:
+            if o[1] in OUTSIDE:
                 tr_designs.add(nb)
             nb += 1
     for k, (m, i) in enumerate(zip(mo, obs[1])):
         op = c["ops"][k]
-        if (op[0] == "build" and op[1] == TR) or (op[0] in ("common", "group") and op[1] in tr_designs):
+        if (op[0] == "build" and op[1] in OUTSIDE) or (op[0] in ("common", "group") and op[1] in tr_designs):
             continue  # calls a user function: outside the model, decided by the oracle
         if m[0] != i[0]:
             return f"op {k} {op}: model {m[0]} implementation {i[0]}"
